@@ -406,6 +406,13 @@ def run(ctx):
     ev.add_tlc("negative control: the cleanup pass writes back a filtered copy (must be refuted)", r2)
     if "NoLostRegistration" not in r2.violated:
         raise env.MachineryError("registry control not refuted")
+    # unbounded number of steps: an inductive invariant discharged by Apalache (Init => IndInv, IndInv /\ Next => IndInv')
+    a0 = tlc.apalache("Registry_Apa", "Init", "IndInv", 0, "reg-init")
+    a1 = tlc.apalache("Registry_Apa", "IndInit", "IndInv", 1, "reg-step")
+    ev.cov["apalache_inductive_invariant"] = {"module": "Registry_Apa", "init_implies_inv": a0[0], "inv_is_inductive": a1[0],
+                                              "wall_s": round(a0[1] + a1[1], 1)}
+    if a0[0] is False or a1[0] is False:
+        raise env.MachineryError("Registry_Apa: the inductive invariant does not hold: " + (a0[2] if a0[0] is False else a1[2])[-300:])
     rs = tlc.model_check("Registry", "Registry_emit.cfg", workers=1, timeout=600,
                          simulate=f"num={200 if ctx.quick else 3000}", depth=9, seed=env.seed() + 11, tag="Registry-sim", coverage=False)
     rbehs = behaviours(rs.out)
